@@ -76,6 +76,17 @@ CHECKS = {
          "(Model/Validate.v) is tied to codegen-v2.ts on every run by differential correspondence; the spec side (no_extra) is "
          "evaluated on the implementation's own answers to search for a failing input.",
          "Values are finite trees without getters/proxies, integer-like or duplicate keys; custom formats are pure."),
+ "C14": ("Theorem C14_every_rebuild_answers_like_a_fresh_process: for every parse and extract (the compiler proper is a parameter), "
+         "every initial disk and every finite history of updates and rebuilds, each rebuild of the session model (thread-local cache, "
+         "get_or_fetch_file, update_file_content_inner) returns what a fresh process returns for the disk at that moment — by the "
+         "invariant 'every cached module was parsed from the text the file has now' (C14_cache_stays_coherent); the pinned tree's "
+         "update (a text that does not parse keeps the old module) is refuted with a history, reproduced on the implementation and "
+         "repaired (fix: 5fd9985). The model is tied to packages/beff-wasm/src/lib.rs through the beff_verif hook: the cache reported "
+         "after every step of generated histories must satisfy the model's step relation (evaluated in Coq), and every rebuild of the "
+         "real session is compared with a fresh thread on the same disk.",
+         "The theorem assumes extract depends on the file manager only through the answers it gets (hypothesis, argued in DESIGN.md); "
+         "the JavaScript host (chokidar, ts.resolveModuleName and its resolvedCache in bundler.ts) is substituted by the hook's in-memory "
+         "host and is not executed; the set of file names is constant during a history, as in watch mode."),
  "C15": ("Theorems about Model/Describe.v (describe, describeChildren, collectDescribeRefs, ParserFromRuntype.describe): the alias table "
          "has one entry per name and the rendered list of declarations has no duplicate, every call restores the active set, and "
          "describeChildren() covers every component describe() descends into (C15_aliases_declared_once, C15_describe_restores_active, "
@@ -137,9 +148,9 @@ def main():
         "setup_cmd": "python3 tools/vp.py setup",
         "hooks": {
             "guard": "cargo feature beff_verif (crate beff_wasm)",
-            "enable": "cargo build --features beff_verif (only the watch-session harness uses it)",
+            "enable": "harness/session depends on beff_wasm with features = [\"beff_verif\"] (cargo build --release --offline in /verif/harness); only the C14 check uses it",
             "baseline_off_cmd": "cd /repo && cargo test --workspace --no-fail-fast --offline",
-            "source_commits": [],
+            "source_commits": ["3c6680c"],
             "add_only": True,
         },
         "engines": [{"name": "coq-model", "path": "coq", "serves_properties": sorted(CHECKS),
